@@ -29,6 +29,16 @@ FT = {
 R_NAMES = ["r", "rate", "r#ref", "right", "r#type", "r_", "rr", "r0", "rx9", "radius", "row", "r#loop", "reg"]
 
 
+# hostile scopes: blanket traits whose by-value methods are named like the builder methods of core::fmt (a by-value trait
+# method wins over an inherent `&mut self` method in method-call syntax); the std twin lives in the same scope
+HOSTILE = {
+    "t": "pub trait HostT: Sized { fn field<A>(self, _a: A) -> Self { self } }\nimpl<X> HostT for X {}",
+    "s": "pub trait HostS: Sized { fn field<A, B>(self, _a: A, _b: B) -> Self { self } }\nimpl<X> HostS for X {}",
+    "f": "pub trait HostF: Sized { fn finish(self) -> ::core::fmt::Result { Err(::core::fmt::Error) } fn finish_non_exhaustive(self) -> ::core::fmt::Result { Err(::core::fmt::Error) } }\nimpl<X> HostF for X {}",
+    "d": "pub trait HostD: Sized { fn debug_struct(self, _n: &str) -> u8 { 0 } fn debug_tuple(self, _n: &str) -> u8 { 0 } fn fmt(self, _f: &mut ::core::fmt::Formatter) -> ::core::fmt::Result { Ok(()) } }\nimpl<X> HostD for X {}",
+}
+
+
 def fname(spec, i):
     """Field names: f0, f1, .. or - spec["names"] == "r" - names beginning with `r` (some of them raw identifiers)."""
     return R_NAMES[i % len(R_NAMES)] if spec.get("names") == "r" else f"f{i}"
@@ -68,7 +78,8 @@ def gen_spec(rng, kind=None):
             for f in v["fields"]:
                 f["eq_ignore"] = rng.choice([None, "eq", "partial_eq"])
     return {"kind": kind, "variants": variants, "generic": generic, "entry": rng.choice(["attr", "derive"]),
-            "names": "r" if rng.random() < 0.25 else None, "co": co, "doc": rng.random() < 0.3}
+            "names": "r" if rng.random() < 0.25 else None, "co": co, "doc": rng.random() < 0.3,
+            "scope": rng.choice(["t", "s", "f", "d", "tf", "sfd"]) if rng.random() < 0.15 else None}
 
 
 def type_text(spec, twin):
@@ -150,7 +161,9 @@ def render(spec, control=False):
     tw, tw_generic = type_text(spec, True)
     inner_dx = ("#[derive(Debug, PartialEq)]" if control else "#[derive(PartialEq)] #[::derive_ex::derive_ex(Debug)]") + "\npub struct Inner { pub a: u8, pub b: f64 }"
     inner_tw = "#[derive(Debug)]\npub struct Inner { pub a: u8, pub b: f64 }"
-    out = [inner_dx, dx, "pub mod tw {", inner_tw, tw, "}", "pub fn run() {"]
+    host = [HOSTILE[k] for k in (spec.get("scope") or "")]
+    host_tw = ["#[allow(unused_imports)] use super::{" + ", ".join(f"Host{k.upper()} as _" for k in spec["scope"]) + "};"] if host else []
+    out = host + [inner_dx, dx, "pub mod tw {"] + host_tw + [inner_tw, tw, "}", "pub fn run() {"]
     for vi, v in enumerate(spec["variants"]):
         for which in range(2):
             x = ctor(spec, vi, which, False)
@@ -230,6 +243,15 @@ def core():
         specs.append({"kind": "struct", "variants": [{"style": style, "fields": fs}], "generic": False, "entry": "attr" if style == "named" else "derive"})
         specs.append({"kind": "enum", "variants": [{"style": "unit", "fields": []}, {"style": style, "fields": [dict(f) for f in fs]}], "generic": False,
                       "entry": "derive" if style == "named" else "attr"})
+    # hostile scopes (blanket traits with methods named like the fmt builders), every struct / variant style
+    for sc in ("t", "s", "f", "d", "tf", "sfd"):
+        for style in ("named", "tuple", "unit"):
+            k += 1
+            fs = [] if style == "unit" else [fld("u8"), fld("str", ignore=True), fld("i32")]
+            specs.append({"kind": "struct", "variants": [{"style": style, "fields": [dict(f) for f in fs]}], "generic": False, "entry": "attr" if k % 2 else "derive", "scope": sc})
+            specs.append({"kind": "enum", "variants": [{"style": "unit", "fields": []}, {"style": style, "fields": [dict(f) for f in fs]},
+                                                       {"style": "named", "fields": []}, {"style": "tuple", "fields": [fld("u8", ignore=True)]}],
+                          "generic": False, "entry": "derive" if k % 2 else "attr", "scope": sc})
     specs.append({"kind": "enum", "generic": True, "entry": "derive", "variants": [
         {"style": "unit", "fields": []}, {"style": "named", "fields": []}, {"style": "tuple", "fields": []},
         {"style": "named", "fields": [fld("T"), fld("optT", ignore=True), fld("inner")]},
@@ -322,7 +344,7 @@ def run(rep, tier, rng):
             break
     rep.canary = bool(check_case(ok.meta["spec"], ev))
     rep.rule = ("struct/enum shapes (unit, tuple, named, empty braces/parens, nested derived type, generic) with every subset of <=3 "
-                "fields ignored, each choice of transparent field, 12-field shapes, a field type with an inherent fmt(), plus random shapes; each value is formatted with 12 format specs "
+                "fields ignored, each choice of transparent field, 12-field shapes, a field type with an inherent fmt(), scopes with blanket traits whose by-value methods are named like the fmt builders (field, finish, debug_struct ..; the std twin lives in the same scope), plus random shapes; each value is formatted with 12 format specs "
                 "(alternate, width, fill/alignment, sign, precision, hex, combinations) by the derive_ex type and by a std-derived "
                 "twin with the ignored fields deleted (or the transparent field alone) and the strings compared. evaluations = "
                 "format calls compared; distinct_nontrivial = distinct (kind, variant style, per-field (type, ignore, transparent)).")
